@@ -356,9 +356,9 @@ def random_seg(rng, idx):
     name = f"v{idx}"
     k = rng.random()
     if k < 0.35:
-        return lit(rng.choice(["a", "ab", "b", "12", "x.y", "é", "a-b", "1.5", "v1"]))
-    pre = rng.choice(["", "", "", "v", "a-", "x"])
-    post = rng.choice(["", "", "", ".x", "-z", "s"])
+        return lit(rng.choice(["a", "ab", "b", "12", "x.y", "é", "a-b", "1.5", "v1", "a+b", "x$", "(a)"]))
+    pre = rng.choice(["", "", "", "", "v", "a-", "x", "a.", "^"])
+    post = rng.choice(["", "", "", "", ".x", "-z", "s", "+", ".json", "$"])
     c = rng.choice(["string", "string", "strlen", "strmm", "int", "int", "intf", "ints", "float", "floats", "any", "uuid"])
     if c == "string":
         return var("string", name, pre, post, n=1)
@@ -830,4 +830,207 @@ def own_slash_groups(rng, quick):
     if quick:
         rng.shuffle(out)
         out = out[:40]
+    return out
+
+
+# ---------------------------------------------------------------------------- C03: literals with regex metacharacters
+META_LITS = ["a.b", ".json", "a+b", "a*b", "a?b", "a(b)", "(a)", "[ab]", "a[0]", "a{2}", "^a", "x$", "a|b", "a\\b",
+             "\\d", "+", "$", ".", "(", ")", "a.", "*.x", "x^2", "{a}", "a|", "\\"]
+
+
+def meta_near(L):
+    """Strings that differ from the literal L only at a metacharacter: every string an *unescaped* use of L as a
+    regular expression would accept (enumerated over L's own plain characters + 'x'), and L with one metacharacter
+    removed / replaced by a plain character / replaced by its neighbour."""
+    import re
+
+    metas = set(".+*?()[]{}^$|\\")
+    out = set()
+    for i, ch in enumerate(L):
+        if ch in metas:
+            out |= {L[:i] + L[i + 1:], L[:i] + "x" + L[i + 1:]}
+            if i:
+                out.add(L[:i] + L[i - 1] + L[i + 1:])
+    plain = sorted({c for c in L if c not in metas} | {"x"})[:3]
+    try:
+        rx = re.compile(L)
+    except re.error:
+        rx = None
+    if rx is not None:
+        for n in range(0, min(len(L) + 1, 5) + 1):
+            for t in itertools.product(plain, repeat=n):
+                s = "".join(t)
+                if rx.fullmatch(s):
+                    out.add(s)
+    out.discard(L)
+    return sorted(x for x in out if x and "/" not in x)
+
+
+def meta_groups(rng, quick):
+    """Rules whose literal text (whole segment, prefix before a converter, suffix after a converter, both) contains
+    regular-expression metacharacters, alone and next to a broader competitor, with exact and near-miss paths.
+    Yields (rules, paths)."""
+    out = []
+    lits = META_LITS if not quick else rng.sample(META_LITS, 12)
+    for L in lits:
+        near = meta_near(L)
+        shapes = [
+            ([lit(L)], [L] + near),
+            ([lit("p"), lit(L)], ["p/" + x for x in [L] + near]),
+            ([var("int", "n", post=L)], [v + x for v in ("5", "12") for x in [L] + near] + ["5"]),
+            ([var("string", "s", post=L)], [v + x for v in ("ab", "5") for x in [L] + near]),
+            ([var("int", "n", pre=L)], [x + v for v in ("5", "12") for x in [L] + near] + ["5"]),
+            ([var("string", "s", pre=L, post=L)], [x + "ab" + y for x in [L] + near[:3] for y in [L] + near[:3]]),
+            ([var("int", "n", post=L), lit("e")], [v + x + "/e" for v in ("5",) for x in [L] + near]),
+        ]
+        if quick:
+            shapes = rng.sample(shapes, 4)
+        for segs, parts in shapes:
+            branch = rng.random() < 0.4
+            main = rule(segs, branch=branch)
+            comp = rng.choice([[], [rule([var("string", "z")], branch=rng.random() < 0.5)], [rule([var("path", "z")])],
+                               [rule([lit("".join(c for c in L if c.isalnum()) or "x")])]])
+            rules = [main] + comp
+            rng.shuffle(rules)
+            paths = []
+            for p in parts[: 14 if quick else 40]:
+                paths += ["/" + p, "/" + p + "/"]
+            out.append((rules, paths))
+    return out
+
+
+# ---------------------------------------------------------------------------- C03: map histories (use before complete)
+def run_history(arg):
+    """(base cfg without rules, ops) -> list of segments [cfg line, match lines...]; executed in a worker process.
+    ops: ["add", rec] | ["addsub", prefix, [rec]] | ["addfac", [rec]] | ["bind"] | ["match", path, method, adapter]
+         | ["build"] | ["expect"] | ["iter"]        (adapter: index into the adapters bound so far, -1 = newest)
+    rec = rule record with an explicit endpoint; for addsub the record already contains the prefix segment."""
+    from werkzeug.routing import Map, Rule, RuleFactory, Submount
+
+    base, ops = arg
+    b = base["bind"]
+    m = Map([], strict_slashes=base["map"]["strict"], merge_slashes=base["map"]["merge"], redirect_defaults=base["map"]["rd"])
+    recs, objs, adapters, segs = [], [], [], []
+
+    def mk(r, strip=0):
+        rr = dict(r, segs=r["segs"][strip:])
+        rr["branch"] = r["branch"] or not rr["segs"]
+        return Rule(rule_string(rr), endpoint=r["endpoint"], methods=r["methods"],
+                    strict_slashes=_TRI[r["strict"]], merge_slashes=_TRI[r["merge"]])
+
+    class Factory(RuleFactory):
+        def __init__(self, rules):
+            self.rules = rules
+
+        def get_rules(self, map):
+            yield from self.rules
+
+    def register(new_recs, before):
+        fresh = {o.endpoint: o for o in m._rules if id(o) not in before}
+        for r in new_recs:
+            recs.append(r)
+            objs.append(fresh[r["endpoint"]])
+
+    def bind():
+        adapters.append(m.bind(b["server"], b["script"], url_scheme=b["scheme"]))
+
+    cur = None
+    for op in ops:
+        k = op[0]
+        before = {id(o) for o in m._rules}
+        if k == "add":
+            m.add(mk(op[1]))
+            register([op[1]], before)
+            cur = None
+        elif k == "addsub":
+            m.add(Submount("/" + op[1], [mk(r, strip=1) for r in op[2]]))
+            register(op[2], before)
+            cur = None
+        elif k == "addfac":
+            m.add(Factory([mk(r) for r in op[1]]))
+            register(op[1], before)
+            cur = None
+        elif k == "bind":
+            bind()
+        elif k == "match":
+            if not adapters:
+                bind()
+            if cur is None:
+                cur = [enc_cfg(dict(base, rules=list(recs)), True)]
+                segs.append(cur)
+            ln = run_case(base, adapters[op[3] if op[3] < len(adapters) else -1], objs, op[1], op[2], NOQ, follow=False)
+            ln["i"] = len(cur) - 1
+            ln["opno"] = ops.index(op)
+            cur.append(ln)
+        elif k == "build" and recs:
+            if not adapters:
+                bind()
+            r = recs[-1]
+            try:
+                adapters[-1].build(r["endpoint"], {s["name"]: {"int": 7, "float": 1.5}.get(s["conv"], "a") for s in r["segs"] if s["k"] == "var"})
+            except Exception:
+                pass          # building is C04's business; here it only exercises Map.update() between adds
+        elif k == "expect" and recs:
+            m.is_endpoint_expecting(recs[0]["endpoint"], "n")
+        elif k == "iter":
+            list(m.iter_rules())
+    return segs
+
+
+def history_sets(rng):
+    """Rule sets whose members must sort before / after each other (static vs converter, narrower vs broader
+    converter, affix weights), to be added in every order with matches in between."""
+    V = var
+    fixed = [
+        [rule([V("string", "s")]), rule([V("int", "n")]), rule([lit("a")]), rule([V("path", "p")])],
+        [rule([V("path", "p")]), rule([lit("a"), V("string", "s")]), rule([lit("a"), lit("b")]), rule([lit("a"), V("int", "n")])],
+        [rule([V("string", "s")], branch=True), rule([V("int", "n")], branch=True), rule([V("float", "f")]), rule([lit("12")])],
+        [rule([V("string", "s", pre="v")]), rule([V("int", "n", pre="v")]), rule([V("string", "s")]), rule([lit("v1")])],
+        [rule([V("string", "s"), lit("b")]), rule([V("int", "n"), lit("b")]), rule([lit("a"), lit("b")], methods=["POST"]),
+         rule([V("path", "p")], branch=True)],
+        [rule([V("any", "x", items=["a", "ab"])]), rule([V("strlen", "s", n=2)]), rule([V("int", "n", n=2)]), rule([V("path", "p")])],
+    ]
+    return fixed
+
+
+def make_histories(rng, quick):
+    """[(base cfg, ops, probe paths)]"""
+    out = []
+    sets = history_sets(rng) + [random_rules(rng, rng.randint(3, 5)) for _ in range(4 if quick else 60)]
+    for rs in sets:
+        rs = [dict(r, endpoint=f"h{i + 1}") for i, r in enumerate(rs)]
+        probes = paths_for(rs, rng, 14 if quick else 30)
+        perms = list(itertools.permutations(range(len(rs)))) if len(rs) <= 4 else [rng.sample(range(len(rs)), len(rs)) for _ in range(24)]
+        rng.shuffle(perms)
+        for perm in perms[: 4 if quick else 24]:
+            ops, i = [], 0
+            order = [rs[j] for j in perm]
+            while i < len(order):
+                how = rng.random()
+                r = order[i]
+                if how < 0.15:
+                    sub = dict(r, segs=[lit("sm")] + r["segs"], branch=r["branch"])
+                    order[i] = sub
+                    ops.append(["addsub", "sm", [sub]])
+                elif how < 0.3 and i + 1 < len(order):
+                    ops.append(["addfac", [order[i], order[i + 1]]])
+                    i += 1
+                else:
+                    ops.append(["add", r])
+                i += 1
+                # use the map before it is complete
+                if rng.random() < 0.6:
+                    for act in rng.sample(["bind", "match", "match", "build", "expect", "iter"], rng.randint(1, 4)):
+                        if act == "match":
+                            ops += [["match", p, rng.choice(["GET", "GET", "POST"]), rng.choice([0, -1])] for p in rng.sample(probes, min(4, len(probes)))]
+                        else:
+                            ops.append([act])
+            final = probes + ["/sm" + p for p in probes[:6]]
+            for p in final:
+                ops.append(["match", p, "GET", 0])          # the adapter bound first (before the later adds)
+            ops.append(["bind"])
+            for p in final[::2]:
+                ops.append(["match", p, rng.choice(["GET", "POST"]), -1])
+            s, mg = rng.choice([(True, True), (True, True), (False, True), (True, False), (False, False)])
+            out.append((make_cfg([], s, mg), ops))
     return out
